@@ -80,7 +80,7 @@ pub fn spec() -> PropSpec<Case> {
     assumptions: &[
       "the NpmResolver returns as many results as requirements (documented MUST)",
       "fault -> error entry is asserted for missing / loader-error faults on specifiers the faulted build loads exactly once",
-      "isolation compares modules reachable in the fault-free graph along paths avoiding every faulted specifier, every specifier a fault redirects to and what the world serves those as (redirect / alias targets); modules whose acceptance depends on the request context (unknown / JSON media type, asset imports) are excluded from the comparison",
+      "isolation compares modules reachable in the fault-free graph along paths avoiding every faulted specifier, every specifier a fault redirects to and what the world serves those as (redirect / alias targets); when an npm resolution failure is injected as well, every npm: entry counts as depending on a failure; modules whose acceptance depends on the request context (unknown / JSON media type, asset imports) are excluded from the comparison",
       "a debug assertion of the code under test firing counts as a panic",
     ],
     crash_is_violation: true,
@@ -223,6 +223,17 @@ pub fn check(case: &Case, _tier: Tier) -> Outcome {
         simple.push((call.spec.clone(), f.kind));
       }
       plan.insert((call.spec.clone(), attempt), fault);
+    }
+  }
+  // an injected npm resolution failure is a failure too: every npm: entry
+  // depends on it (whether it shows as an error entry or in the graph-level
+  // dependency result depends on who imports the specifier, statically or
+  // dynamically, which another fault may change)
+  if case.npm_mode != 0 {
+    for (s, _) in crate::obs::entries(&g0, false) {
+      if s.starts_with("npm:") {
+        touched.insert(s);
+      }
     }
   }
   let nfaults = plan.len();
